@@ -12,7 +12,7 @@ from ..monitor import Monitor
 ID = 'C18'
 LEVEL = 'exploration'
 RULE = (
-    'cases: 1-4 tetrahedral clusters (centre + 4 satellites, bond 0.9-1.6 A, satellites +-5 % unequal) with an '
+    'cases: 1-4 (two cases per quick run: 66-81, i.e. more than 256 satellites) tetrahedral clusters (centre + 4 satellites, bond 0.9-1.6 A, satellites +-5 % unequal) with an '
     'independent random rotation per frame and a random-walk translation that carries the bonds across cell faces, '
     'in lattice-zoo cells (incl. rotated) at least 5 bond lengths wide; atom order shuffled, spectator species '
     'present; 2-120 frames (thorough up to 400).  Checked: vectors, lengths, normalize, symmetrize for all 20 point '
@@ -101,19 +101,24 @@ def run_unit(unit, rng, ctx):
     from pymatgen.symmetry.groups import PointGroup
 
     bond = float(rng.uniform(0.9, 1.6))
+    large = unit['i'] in (11, 137) or (ctx.tier == 'thorough' and unit['i'] % 300 == 11)
     for _ in range(30):
-        kind, rot, m = geom.random_lattice(rng, lo=6.0, hi=12.0)
+        kind, rot, m = geom.random_lattice(rng, lo=24.0 if large else 6.0, hi=30.0 if large else 12.0)
         if geom.perp_widths(m).min() >= 5.2 * bond:
             break
     else:
         raise Skip('cell too small for the bond')
     inv = np.linalg.inv(m)
-    n_cl = int(rng.integers(1, 5))
+    n_cl = int(rng.integers(66, 82)) if large else int(rng.integers(1, 5))
+    if large:
+        ctx.count('systems_with_more_than_256_satellites')
     centres0 = geom.separated_points(rng, m, n_cl, 2 * bond * 1.12 + 1.6 * bond, face_prob=0.4)
     if centres0 is None:
         raise Skip('clusters do not fit')
     big = ctx.tier == 'thorough' and unit['i'] % 40 == 0
     T = int(rng.integers(150, 400)) if big else int(rng.integers(2, 121))
+    if large:
+        T = int(rng.integers(2, 5))
     c_name, s_name = [('S', 'O'), ('P', 'S'), ('Si', 'O'), ('B', 'H')][int(rng.integers(4))]
     walk = np.cumsum(rng.normal(scale=0.03, size=(T, 1, 3)) * (np.arange(T) > 0)[:, None, None], axis=0)
     cent = centres0[None, :, :] + walk  # all clusters drift together: their separation is preserved
